@@ -516,14 +516,23 @@ def setfilter_e3(ctx, tag, scenarios):
     w = ctx.sub(tag + "_e3")
     scf = os.path.join(w, "scenarios.ndjson")
     vlib.vh(["drive", tag, "--out", scf, "--seed", str(ctx.seed), "--scenarios", str(scenarios)], w)
-    p = os.path.join(w, "p.ndjson")
-    stats = vlib.vh(["scenario", tag, "--in", scf, "--out", p], w)
+    p, m = os.path.join(w, "p.ndjson"), os.path.join(w, "m.ndjson")
+    stats = vlib.vh(["scenario", tag, "--in", scf, "--out", p] + (["--mout", m] if tag == "bl" else []), w)
     ctx.e3_calls += stats["calls"]
     ctx.executed += stats["calls"]
     n, rej = vlib.adjudicate("P_SetFilter", p, w)
     ctx.judged += n
     add_rejects(ctx, rej, p, tag, "P_SetFilter", scenarios=scf)
     sample_records(ctx, p, 1, '"union"')
+    if tag == "bl" and not stats.get("hang"):
+        # M-level trace validation (code -> spec) of the recorded scenarios of filters up to 256 bits
+        nm, drift, ng = vlib.mvalidate_grouped("Trace_Bloom", m, w, lambda c: (c["m"], c["k"]) if c.get("m", 9999) <= 256 else None,
+                                               lambda k: {"M": k[0], "Kh": k[1]})
+        ctx.mvalidated += nm
+        ctx.drift += len(drift)
+        if drift:
+            ctx.drift_notes.append({"bloom_scenario_calls_not_reproduced_by_spec": drift[:5]})
+        ctx.extra.setdefault("m_level_trace_validation", []).append({"structure": "BloomFilter", "configurations": ng, "calls": nm, "not_reproduced": len(drift)})
 
 
 def run_bl(ctx):
@@ -640,14 +649,24 @@ def cms_e3(ctx, scenarios, types):
         scf = os.path.join(w, "scenarios.ndjson")
         cmax = CMS_TYPES[tag]
         vlib.vh(["drive", "cms", "--out", scf, "--seed", str(ctx.seed + len(tag)), "--scenarios", str(scenarios), "--cmax", str(cmax if cmax < 100000 else 0)], w)
-        p = os.path.join(w, "p.ndjson")
-        stats = vlib.vh(["scenario", tag, "--in", scf, "--out", p], w)
+        p, m = os.path.join(w, "p.ndjson"), os.path.join(w, "m.ndjson")
+        mlevel = cmax < 100000        # small counter types: every value fits TLC's integers
+        stats = vlib.vh(["scenario", tag, "--in", scf, "--out", p] + (["--mout", m] if mlevel else []), w)
         ctx.e3_calls += stats["calls"]
         ctx.executed += stats["calls"]
         n, rej = vlib.adjudicate("P_CMS", p, w)
         ctx.judged += n
         add_rejects(ctx, rej, p, tag, "P_CMS", scenarios=scf)
         sample_records(ctx, p, 1, '"merge"')
+        if mlevel and not stats.get("hang"):
+            # M-level trace validation (code -> spec) of the recorded scenarios, grouped by table shape
+            nm, drift, ng = vlib.mvalidate_grouped("Trace_CMS", m, w, lambda c: (c["w"], c["d"]) if c.get("w", 999) * c.get("d", 999) <= 64 else None,
+                                                   lambda k, cmax=cmax: {"W": k[0], "D": k[1], "CMax": cmax})
+            ctx.mvalidated += nm
+            ctx.drift += len(drift)
+            if drift:
+                ctx.drift_notes.append({"cms_scenario_calls_not_reproduced_by_spec": drift[:5], "type": tag})
+            ctx.extra.setdefault("m_level_trace_validation", []).append({"structure": "CountMinSketch<%s>" % tag, "configurations": ng, "calls": nm, "not_reproduced": len(drift)})
 
 
 def run_cms(ctx):
